@@ -282,9 +282,21 @@ func (c *Ctx) payloadWritesEnv(fn *ssa.Function, data *X, env map[ssa.Value]*X) 
 		return nil, "payload is empty"
 	}
 	// a piece is guarded by the facts holding where it is appended, less those holding where the first one is
+	// (the facts common to all pieces: the pieces of alternative returns lie under different ones)
 	base := map[string]bool{}
 	for _, f := range seq.facts[0] {
 		base[f] = true
+	}
+	for _, fs := range seq.facts[1:] {
+		here := map[string]bool{}
+		for _, f := range fs {
+			here[f] = true
+		}
+		for f := range base {
+			if !here[f] {
+				delete(base, f)
+			}
+		}
 	}
 	out := make([]BufWrite, len(seq.ws))
 	for i := range seq.ws {
@@ -316,7 +328,42 @@ func (c *Ctx) factStrings(b *ssa.BasicBlock, env map[ssa.Value]*X) []string {
 		g.Cond = subst(f.Cond, env)
 		out = append(out, c.regFact(g))
 	}
+	// a block entered from the arms of a short-circuit test (a || b) lies under no single test; what holds there
+	// is the disjunction of the tests on its incoming edges. The same goes for every block it dominates.
+	for d := b; d != nil; d = d.Idom() {
+		if f, ok := c.orFact(d); ok {
+			f.Cond = subst(f.Cond, env)
+			out = append(out, c.regFact(f))
+		}
+	}
 	return out
+}
+
+// orFact: the disjunction of the edge tests of a join whose predecessors all end in a test.
+func (c *Ctx) orFact(b *ssa.BasicBlock) (Fact, bool) {
+	if len(b.Preds) < 2 {
+		return Fact{}, false
+	}
+	var or *X
+	for _, p := range b.Preds {
+		if b.Dominates(p) {
+			return Fact{}, false // a loop head
+		}
+		ef := edgeFact(c, p, b)
+		if len(ef) != 1 {
+			return Fact{}, false
+		}
+		t := ef[0].Cond
+		if !ef[0].Val {
+			t = &X{Op: "not", Args: []*X{t}}
+		}
+		if or == nil {
+			or = t
+		} else {
+			or = &X{Op: "binop", Name: "||", Args: []*X{or, t}}
+		}
+	}
+	return Fact{Cond: or, Val: true}, true
 }
 
 func (c *Ctx) regFact(f Fact) string {
